@@ -14,6 +14,49 @@ CLAIMED = {
         technique="Coq proof (iff-characterisation of each constructor guard) + exhaustive model/implementation correspondence on the property's grid",
         design="5/C17"),
 }
+
+def _claim(pid, text, note, technique, design):
+    CLAIMED[pid] = dict(text=text, note=note, technique=technique, design=design)
+
+_COMMON_NOTE = ("Trusted: Coq kernel + vm_compute (BigZ/primitive ints only in the executable instance); hand-written Gallina model validated against the code on sampled inputs only; "
+                "harness (free-module group, instrumented merlin copy, MSM log); field / vector-space laws are hypotheses; Merlin/Blake2b as random oracles and knowledge soundness of the "
+                "inner-product argument are NOT proved. No axioms.")
+_claim("C01", "Completeness is proved for the model (textbook weighted-inner-product argument for any number of rounds and extension degree; theorems listed in evidence) and the code-shaped prover and "
+       "verifier models are tied to the implementation by comparing every coordinate of every proof element and every scalar of the final check on the configuration lattice, plus prove-then-verify "
+       "in the three modes over Ristretto and the free-module group.", _COMMON_NOTE,
+       "Coq proof (WIP folding invariant, final identity) + model/implementation correspondence over a free-module group", "5/C01")
+_claim("C02", "The verifier's scalar computation is modelled in the shape of the code and proved equal to closed forms (s-vector recurrence = recursive form, ...); every scalar the implementation feeds to "
+       "its final multiscalar check is compared with the model on honest, mutated and structurally odd proofs, so a differently weighted generator or proof element is visible as a coordinate. "
+       "Cryptographic knowledge soundness is trusted, not proved.", _COMMON_NOTE,
+       "Coq proof (verifier scalar identities) + scalar-by-scalar correspondence of the final multiscalar product", "5/C02")
+_claim("C03", "Model of chunking, consistency guards and batch accumulation; theorems about the model (chunks cover the batch, result alignment, shape refusals) and differential runs: batch verdict vs "
+       "conjunction of singleton verdicts vs model for sizes around every chunk boundary, eight kinds of invalid member at first/last/boundary/random positions, permutations, mixed capacities.",
+       _COMMON_NOTE, "Coq proof (chunk cover, guards) + relational differential testing of batch vs singletons + model correspondence", "5/C03")
+_claim("C04", "The list of transcript operations of prover and verifier is a Gallina function of statement and proof; it is compared operation by operation with the instrumented merlin log, and for every "
+       "single-datum perturbation the recorded challenge bytes must differ from that datum on and agree before it. Injectivity/prefix theorems about the operation list are in Props/C04.",
+       _COMMON_NOTE, "Coq proof (structure of the operation list) + log correspondence + pairwise challenge-dependency runs", "5/C04")
+_claim("C05", "Every position of accepted triples is altered (scalars, points, round structure, tag, commitments, order, promises, bit length, generators, context) and must yield an error; the model predicts the "
+       "verdict and the scalars. Deterministic rejection lemmas are in Props/C05; rejection of absorbed components is probabilistic (random oracle) and stated as such.", _COMMON_NOTE,
+       "Coq proof (deterministic rejections) + exhaustive position sweep with model correspondence", "5/C05")
+_claim("C06", "Guards of the prover modelled in code order over u64; prove Ok/Err compared with the validity of generated (statement, witness) pairs with exactly one violation at each position, every Ok is "
+       "verified, valid cases compared with the prover model.", _COMMON_NOTE, "Coq proof (guard characterisation) + differential runs with single-violation witnesses", "5/C06")
+_claim("C07", "Promise handling (a_L offset, transcript absorption with None = 0, H-scalar term, range guard) modelled and compared; promise grids at proving time and single substitutions at verification time.",
+       _COMMON_NOTE, "Coq proof (None = 0, guard) + differential promise sweeps with model correspondence", "5/C07")
+_claim("C08", "Weight derivation modelled as transcript operations (all of r1, s1, d1 absorbed; one weight per proof multiplying every term); adaptive cancellation attacks computed from observed weights must be "
+       "rejected and every response scalar must change the weight ratios; log and scalars compared with the model.", _COMMON_NOTE,
+       "Coq proof (weight-transcript structure) + adaptive attack search + log correspondence", "5/C08")
+_claim("C09", "Mask recovery formula modelled; recovered masks compared with the blinding factors position by position for all bit lengths and extension degrees, batches mixing seeded/unseeded/aggregated members.",
+       _COMMON_NOTE, "Coq proof (recovery identity) + differential runs", "5/C09")
+_claim("C10", "Verdict path is independent of seed and mode in the model by construction (theorems), compared on valid/invalid proofs x seeds (incl. seeds differing in one byte) x modes.", _COMMON_NOTE,
+       "Coq proof (non-interference of the seed) + differential runs", "5/C10")
+_claim("C12", "Padding, table owner and accumulation modelled; every (prover capacity, verifier capacity) pair and mixed-capacity batches run on the code and compared with the model; proofs must be byte-identical "
+       "across prover capacities.", _COMMON_NOTE, "Coq proof (padding / prefix lemmas) + capacity-pair sweeps with model correspondence", "5/C12")
+_claim("C13", "Source map slot -> (RNG instance, draw) | seed nonce(label, j, k) in Gallina with distinctness theorems; every nonce is read off the proof's coordinates over the free-module group and compared.",
+       _COMMON_NOTE, "Coq proof (distinct sources, key-layout injectivity) + coordinate-level observation of every nonce", "5/C13")
+_claim("C14", "Transcript-RNG keying modelled as operations (witness bytes re-keyed into every instance, rebuilt after each update) and compared with the log; RNG fault models x one-datum-different run pairs must "
+       "share no RNG-derived nonce.", _COMMON_NOTE, "Coq proof (keying structure, witness serialisation injective) + fault-model run pairs + log correspondence", "5/C14")
+_claim("C16", "Guards of decoder and verifier modelled in code order; hostile proofs/batches in debug and release builds over two back ends must never panic; model predicts Ok/Err. Partial by nature (panics inside "
+       "dependencies are runtime behaviour).", _COMMON_NOTE, "Coq proof (totality of the model's guards) + hostile-input exploration under catch_unwind (debug+release)", "5/C16")
 CLAIMED["C15"] = dict(
     text="The decoder/encoder model is proved, for every byte string of every length, to accept exactly the encodings of well-formed proofs "
          "(tag 1..6, 5+d+2k elements, k>=1, canonical scalars), to be canonical (decode then encode is the identity) and to round-trip "
